@@ -91,6 +91,10 @@ def extract(repo):
         bcls = _class(bb, "BaseBackend")
         heun = _func(bcls, "_solve_heun") if bcls else None
         put("heunCopiesRhs", _heun_copies_rhs(heun) if heun else None)
+        # the storage condition of both loops: `i % store_step == 0` alone (a write past the record raises) or guarded by `idx < store_steps`
+        eul = _func(bcls, "_solve_euler") if bcls else None
+        g = [_store_guarded(f) for f in (eul, heun) if f]
+        put("storeGuarded", (all(g) if g and all(x is not None for x in g) and len(set(g)) == 1 else None))
         runf = _func(bcls, "run") if bcls else None
         put("timeAxisKind", _time_axis_kind(runf) if runf else None)
         # ---- delayed terms (C10): the line the generated function reads its history with, per solver family
@@ -293,6 +297,20 @@ def _is_copying(expr):
     return False
 
 
+def _store_guarded(fn):
+    """the `if` that writes `state_rec[idx, :] = y` inside the solver loop: True iff its test also requires `idx < store_steps`"""
+    for loop in [n for n in ast.walk(fn) if isinstance(n, ast.For)]:
+        for st in loop.body:
+            if isinstance(st, ast.If) and any(isinstance(b, ast.Assign) and "state_rec" in ast.unparse(b.targets[0]) for b in st.body):
+                t = ast.unparse(st.test).replace(" ", "")
+                if t == "i%store_step==0":
+                    return False
+                if t in ("i%store_step==0andidx<store_steps", "idx<store_stepsandi%store_step==0"):
+                    return True
+                return None
+    return None
+
+
 def _heun_copies_rhs(fn):
     """In `_solve_heun`: the name bound to the first `func(...)` result that is later combined with a second `func(...)` call.
     True iff that binding is syntactically a copy (see _is_copying) or the first result is never referenced after the second call."""
@@ -339,6 +357,7 @@ def render(T, missing):
     L.append("/-- the torch backend's `interp` definition is the clamped two-point formula that the correspondence was validated for -/")
     L.append(f"def torchInterpIsLinear : Bool := {'true' if T.get('torchInterpDef') == TORCH_INTERP else 'false'}")
     L.append(f"def heunCopiesRhs : Bool := {'true' if T.get('heunCopiesRhs') is True else 'false'}")
+    L.append(f"def storeGuarded : Bool := {'true' if T.get('storeGuarded') is True else 'false'}")
     L.append(f"/-- BaseBackend.run builds `times` as np.arange(n)*step (true) or as linspace(0,T,n,endpoint=False)/unknown (false) -/")
     L.append(f"def timeAxisIsArange : Bool := {'true' if T.get('timeAxisKind') == 'arangeStep' else 'false'}")
     # backends table: inheritance of class attributes is resolved here (a subclass without its own attribute inherits BaseBackend's)
